@@ -104,3 +104,29 @@ Example C01_chain_example :
   chain_path [RRec (SIdx [48]); RPlain (SWild true)] = [36; 46; 46; 91; 48; 93; 46; 42] /\
   forallb rstep_ok [RRec (SIdx [48]); RPlain (SWild true)] = true.
 Proof. cbv zeta. repeat split; vm_compute; reflexivity. Qed.
+
+(* Paths with existence filters, from the path text (FiltParse.v, FiltChain.v, FiltAddr.v, FiltChainAddr.v): the steps of
+   `$` s1 s2 ... may also be filters [?(@ inner)] over a path of inner steps.  nav_allf is defined on documents alone:
+   a filter step keeps, of the elements of an array in index order or the members of an object in ascending key order,
+   those from which the inner steps reach at least one value (reaches); it selects nothing from a scalar. *)
+From JP Require Import FiltParse FiltChain FiltAddr FiltChainAddr.
+Theorem C01_filter_retrieval : forall cfg parse_float regex_ok ffun afun regex_match,
+  (forall f v w, small v -> ffun f v = Some w -> small w) ->
+  (forall f l w, Forall small l -> afun f l = Some w -> small w) ->
+  forall x r doc st, forallb fstep_ok (x :: r) = true -> small doc -> ok st ->
+  exists t, parse_with cfg parse_float regex_ok jsonpath_grammar (fchain_path (x :: r)) = ParseOk t /\
+            match nav_allf (x :: r) ([], doc) with
+            | [] => exists e, fst (eval_run ffun afun regex_match t doc st) = OErr e
+            | l => fst (eval_run ffun afun regex_match t doc st) = OOk (map (loc_result cfg) l)
+            end.
+Proof. exact fchain_retrieval. Qed.
+Print Assumptions C01_filter_retrieval.
+
+Example C01_filter_example :
+  let doc := VArr [VObj [("a", VNum (num_of_Z 1))]; VObj [("b", VNum (num_of_Z 2))]; VNum (num_of_Z 3); VObj [("a", VNull)]]%string in
+  let path := [FE [RPlain (SDot [97%N])]] in
+  fchain_path path = [36; 91; 63; 40; 64; 46; 97; 41; 93]%N /\
+  forallb fstep_ok path = true /\
+  map snd (nav_allf path ([], doc)) = [VObj [("a", VNum (num_of_Z 1))]; VObj [("a", VNull)]]%string /\
+  map snd (nav_allf [FS (RPlain (SWild false)); FE []] ([], VObj [("k", doc)]%string)) = [VObj [("a", VNum (num_of_Z 1))]; VObj [("b", VNum (num_of_Z 2))]; VNum (num_of_Z 3); VObj [("a", VNull)]]%string.
+Proof. cbv zeta. repeat split; vm_compute; reflexivity. Qed.
